@@ -25,6 +25,7 @@ import (
 	"time"
 
 	"github.com/compose-spec/compose-go/v2/types"
+	"gopkg.in/yaml.v3"
 
 	"verifharness/core"
 )
@@ -197,6 +198,17 @@ func realHistory(raw json.RawMessage) any {
 		}
 		ref[s] = b
 	}
+	// the model's view of the project (Model/RenderHistory.lean): its secrets, in name order
+	tr := &histTrace{Steps: a.Steps, Secrets: []map[string]string{}, Visible: [][]string{}, Flags: []string{}}
+	var snames []string
+	for n := range p.Secrets {
+		snames = append(snames, n)
+	}
+	sort.Strings(snames)
+	for _, n := range snames {
+		sc := p.Secrets[n]
+		tr.Secrets = append(tr.Secrets, map[string]string{"key": n, "name": sc.Name, "file": sc.File, "environment": sc.Environment, "content": sc.Content})
+	}
 	var done []string
 	for i, s := range a.Steps {
 		before := dumpProject(p)
@@ -240,15 +252,86 @@ func realHistory(raw json.RawMessage) any {
 				return rtOut{Fail: "history-rerender-differs:" + s + ":" + firstDiffLine(string(b), string(b2)), What: hist + ": rendering the reloaded project gives other bytes"}
 			}
 		}
+		tr.Visible = append(tr.Visible, secretsWithContent(b, snames))
 		done = append(done, s)
 	}
-	return rtOut{Ok: true}
+	for _, n := range snames {
+		if types.VerifSecretMarshallContent(p.Secrets[n]) {
+			tr.Flags = append(tr.Flags, n)
+		}
+	}
+	return rtOut{Ok: true, Hist: tr}
+}
+
+// histTrace is what the Lean model of a history (`c09.history` driver op) is compared on.
+type histTrace struct {
+	Steps   []string            `json:"steps"`
+	Secrets []map[string]string `json:"secrets"`
+	Visible [][]string          `json:"visible"` // per call: the secrets whose content is in the rendering
+	Flags   []string            `json:"flags"`   // after the history: secrets flagged in the caller's project
+}
+
+// secretsWithContent reads a rendering back (JSON is YAML) and lists the secrets that carry `content`.
+func secretsWithContent(b []byte, names []string) []string {
+	out := []string{}
+	var doc map[string]any
+	if err := yaml.Unmarshal(b, &doc); err != nil {
+		return []string{"<unparsable rendering>"}
+	}
+	ss, _ := doc["secrets"].(map[string]any)
+	for _, n := range names {
+		if m, ok := ss[n].(map[string]any); ok {
+			if _, has := m["content"]; has {
+				out = append(out, n)
+			}
+		}
+	}
+	return out
+}
+
+func histDriverArgs(_, real json.RawMessage) any {
+	var o rtOut
+	if json.Unmarshal(real, &o) != nil || o.Hist == nil {
+		return map[string]any{"secrets": []any{}, "steps": []string{}}
+	}
+	return map[string]any{"secrets": o.Hist.Secrets, "steps": o.Hist.Steps}
+}
+
+func judgeHistory(args, real, drv json.RawMessage) *core.Verdict {
+	if v := judgeRoundTrip(args, real, nil); v != nil {
+		return v
+	}
+	var o rtOut
+	var d struct {
+		Visible [][]string `json:"visible"`
+		Flags   []string   `json:"flags"`
+	}
+	if json.Unmarshal(real, &o) != nil || o.Hist == nil || json.Unmarshal(drv, &d) != nil {
+		return core.Disagree("history: malformed exchange")
+	}
+	if d.Flags == nil {
+		d.Flags = []string{}
+	}
+	for i := range d.Visible {
+		if d.Visible[i] == nil {
+			d.Visible[i] = []string{}
+		}
+	}
+	if !reflect.DeepEqual(d.Flags, o.Hist.Flags) || len(d.Visible) != len(o.Hist.Visible) {
+		return core.Disagree(fmt.Sprintf("history: flags in the caller's project after the history: real %v, model %v; calls real %d, model %d", o.Hist.Flags, d.Flags, len(o.Hist.Visible), len(d.Visible)))
+	}
+	for i := range d.Visible {
+		if !reflect.DeepEqual(d.Visible[i], o.Hist.Visible[i]) {
+			return core.Disagree(fmt.Sprintf("history: call %d (%s): secrets rendered with content: real %v, model %v", i+1, o.Hist.Steps[i], o.Hist.Visible[i], d.Visible[i]))
+		}
+	}
+	return nil
 }
 
 var histSteps = []string{"yaml", "json", "yaml+secrets", "json+secrets"}
 
 func init() {
-	core.Register("c09.history", &core.CheckDef{Real: realHistory, Judge: judgeRoundTrip, Timeout: 30 * time.Second})
+	core.Register("c09.history", &core.CheckDef{Real: realHistory, DriverOp: "c09.history", DriverArgs: histDriverArgs, Judge: judgeHistory, Timeout: 30 * time.Second})
 }
 
 func addHistory(ctx *core.Ctx, doc map[string]any, m c09Mode, steps []string, focus string) {
